@@ -33,6 +33,11 @@ type c10Input struct {
 	// objects; the healthy workload may then legitimately lose the race, so only completion
 	// (no panic, termination) is required.
 	Tight bool
+	// Cfg: scheduler configuration of the cycle (zero value = defaults).
+	Cfg schedrun.Config
+	// NoHealthyReq: the malformed objects touch every workload (e.g. a user queue that takes the
+	// place of the generated parent of ALL queues); only completion is required.
+	NoHealthyReq bool
 }
 
 var c10Tight bool
@@ -59,7 +64,54 @@ func c10Inputs(tier string) []c10Input {
 		out = append(out, c10InputsOne(tier, tight)...)
 	}
 	c10Tight = false
+	// the same malformed inputs under a second scheduler configuration
+	alt := schedrun.Config{Placement: "spread", Signatures: true, ConsolidatingReclaim: true}
+	for _, in := range append([]c10Input{}, out...) {
+		in.Name, in.Cfg = in.Name+" [cfg="+alt.Label()+"]", alt
+		out = append(out, in)
+	}
+	out = append(out, projectLevelInputs()...)
 	out = append(out, validWorlds(tier)...)
+	return out
+}
+
+// projectLevelInputs: fullHierarchyFairness=false. The snapshot drops queues without a parent,
+// re-parents every other queue to a generated parent named "default" and has to survive user
+// queues that carry that very name, with every parent function over {root, n0, n1, n2, default, missing}.
+func projectLevelInputs() []c10Input {
+	var out []c10Input
+	cfg := schedrun.Config{ProjectLevelFairness: true}
+	for _, names := range [][]string{{"q0", "q1", "q2"}, {"default", "q1", "q2"}} {
+		parents := []string{"", names[0], names[1], names[2], "default", "missing"}
+		for a := range parents {
+			for bq := range parents {
+				for c := range parents {
+					ps := []string{parents[a], parents[bq], parents[c]}
+					for _, variant := range []string{"pending-in-n0", "running-in-n1+pending-in-n2"} {
+						for _, tight := range []bool{false, true} {
+							c10Tight = tight
+							b := healthyBase()
+							for i, p := range ps {
+								b.GQueue(names[i], p, 1, -1, 1)
+							}
+							if variant == "pending-in-n0" {
+								b.Workload(world.WL{Name: "m", Queue: names[0], Pods: pods(1, shG1, "", "")})
+							} else {
+								b.Workload(world.WL{Name: "m1", Queue: names[1], Pods: pods(1, shG1, world.StRunning, "ok-node")})
+								b.Workload(world.WL{Name: "m2", Queue: names[2], Pods: pods(1, shG1, "", "")})
+							}
+							nm := fmt.Sprintf("project-level queues names=%v parents=%v %s", names, ps, variant)
+							if tight {
+								nm = "tight: " + nm
+							}
+							out = append(out, c10Input{Name: nm, Class: "queue-graph-project-level", World: b.Done(), Tight: tight, Cfg: cfg, NoHealthyReq: names[0] == "default"})
+						}
+					}
+				}
+			}
+		}
+	}
+	c10Tight = false
 	return out
 }
 
@@ -342,7 +394,7 @@ func runC10(tier string) int {
 			wd.Reset()
 			t0 := time.Now()
 			r := c10Result{Done: i, Name: in.Name, Class: in.Class}
-			res, err := schedrun.RunCycle(in.World, schedrun.Config{}, nil)
+			res, err := schedrun.RunCycle(in.World, in.Cfg, nil)
 			if err != nil {
 				r.HarnessErr = err.Error()
 			} else {
@@ -374,9 +426,10 @@ func runC10(tier string) int {
 	completed, healthy := 0, 0
 	harnessErr := ""
 	mkReplay := func(i int) any {
-		return map[string]any{"input_index": i, "input": inputs[i].Name, "world": json.RawMessage(inputs[i].World.JSON())}
+		return map[string]any{"input_index": i, "input": inputs[i].Name, "config": inputs[i].Cfg, "world": json.RawMessage(inputs[i].World.JSON())}
 	}
 	workers := 12
+	engine.MaxDeaths = 12
 	err := engine.RunResumableWorkers(workers, len(inputs), 4*1024*1024, func(w int, line []byte) {
 		var r c10Result
 		if json.Unmarshal(line, &r) != nil || r.Name == "" {
@@ -397,7 +450,7 @@ func runC10(tier string) int {
 			rep.Add(engine.Violation{Property: "C10", Key: "C10/panic class=" + r.Class + " " + panicSite(r.Panic), Message: fmt.Sprintf("input %q: scheduler panicked: %s", r.Name, first), Replay: mkReplay(r.Done)})
 		} else if r.HealthyOK {
 			healthy++
-		} else if inputs[r.Done].Tight {
+		} else if inputs[r.Done].Tight || inputs[r.Done].NoHealthyReq {
 			// completed; placement of the healthy workload is not required under scarcity
 		} else {
 			why := "healthy-workload-not-scheduled"
@@ -438,13 +491,14 @@ func runC10(tier string) int {
 	code := rep.Finish()
 	cov := map[string]any{
 		"evaluations": len(inputs), "distinct_nontrivial": len(outcomes),
-		"rule":              "inputs = every parent function on 3 queues over {root,q0,q1,q2,missing} x 2 workload placements; every sub-group parent graph on 3 sub-groups x minMember {-1,0,1,5}; duplicate/case-differing sub-group names x missing queue; flat groups x minMember x {zero pods, pods on unknown nodes}; 3 GPU annotations x a list of malformed number literals x {pending, running}; 16 malformed nodes x 4 workloads; dangling references. Each input + one healthy queue/workload/node runs through ONE real scheduler cycle in a worker with a 10 s CPU watchdog and ulimit -v 4G; an input on which the worker dies is re-run first in a fresh worker and reported only if the death repeats. distinct_nontrivial = distinct (input class, panic?, open error?, healthy workload bound?, number of decisions) outcomes",
+		"rule":              "inputs = every parent function on 3 queues over {root,q0,q1,q2,missing} x 2 workload placements; every sub-group parent graph on 3 sub-groups x minMember {-1,0,1,5}; duplicate/case-differing sub-group names x missing queue; flat groups x minMember x {zero pods, pods on unknown nodes}; 3 GPU annotations x a list of malformed number literals x {pending, running}; 16 malformed nodes x 4 workloads; dangling references; all of these under 2 scheduler configurations (default; spread+signatures+consolidating reclaim); project-level fairness (fullHierarchyFairness=false) x queue names {q0,q1,q2} / {default,q1,q2} x every parent function over {root,n0,n1,n2,default,missing} x 2 placements x roomy/tight. Each input + one healthy queue/workload/node runs through ONE real scheduler cycle in a worker with a 10 s CPU watchdog and ulimit -v 4G; an input on which the worker dies is re-run first in a fresh worker and reported only if the death repeats. distinct_nontrivial = distinct (input class, panic?, open error?, healthy workload bound?, number of decisions) outcomes",
 		"samples":           samples,
 		"inputs_per_class":  ck,
 		"cycles_completed":  completed,
 		"worker_deaths_retried_in_fresh_process": engine.RetriedDeaths,
 		"healthy_scheduled": healthy,
-		"exhaustive":        true,
+		"exhaustive":        !engine.DeathsCapped,
+		"stopped_after_confirmed_worker_deaths": engine.DeathsCapped,
 		"states":            len(inputs), "transitions": completed, "traces_validated_against_impl": completed,
 	}
 	if len(rep.KnownHits()) > 0 {
@@ -483,8 +537,9 @@ func replayC10(path string) int {
 	}
 	var v struct {
 		Replay struct {
-			World json.RawMessage `json:"world"`
-			Input string          `json:"input"`
+			World  json.RawMessage `json:"world"`
+			Input  string          `json:"input"`
+			Config schedrun.Config `json:"config"`
 		} `json:"replay"`
 	}
 	if err := json.Unmarshal(b, &v); err != nil {
@@ -497,7 +552,7 @@ func replayC10(path string) int {
 		return 2
 	}
 	engine.StartCPUWatchdog(20 * time.Second)
-	res, err := schedrun.RunCycle(w, schedrun.Config{}, nil)
+	res, err := schedrun.RunCycle(w, v.Replay.Config, nil)
 	if err != nil {
 		fmt.Fprintln(os.Stderr, err)
 		return 2
